@@ -25,6 +25,7 @@ func init() {
 	nd.Register("VerifC09Namespace", VerifC09Namespace)
 	nd.Register("VerifC09Search", VerifC09Search)
 	nd.Register("VerifC09ViewSearch", VerifC09ViewSearch)
+	nd.Register("VerifC09WireSearch", VerifC09WireSearch)
 }
 
 var c09msgs = []string{
@@ -729,4 +730,84 @@ func VerifC09ViewSearch() {
 	}
 	nd.Assert(data.Count == count, "view-search-count-differs-from-reference")
 	nd.Reach("view-searched")
+}
+
+// ---------------------------------------------------------------------------
+// SEARCH over the wire: the server's key parser (which folds keys with
+// SearchCriteria.And) in front of the backend's matcher, against per-key predicates.
+
+var c09wireKeys = []struct {
+	text string
+	hit  [3]bool // messages of 40 / 140 (\Seen) / 240 octets, UIDs 1..3, internal date 1-Jan-2024
+}{
+	{"SMALLER 200", [3]bool{true, true, false}},
+	{"LARGER 100", [3]bool{false, true, true}},
+	{"SEEN", [3]bool{false, true, false}},
+	{"UNSEEN", [3]bool{true, false, true}},
+	{"SINCE 1-Jan-2020", [3]bool{true, true, true}},
+	{"BEFORE 1-Jan-2030", [3]bool{true, true, true}},
+	{"ON 1-Jan-2024", [3]bool{true, true, true}},
+	{"2:3", [3]bool{false, true, true}},
+	{"UID 1:2", [3]bool{true, true, false}},
+	{"NOT LARGER 200", [3]bool{true, true, false}},
+	{"OR SEEN SMALLER 100", [3]bool{true, true, false}},
+	{"SENTSINCE 1-Jan-2020", [3]bool{true, true, true}},
+}
+
+func VerifC09WireSearch() {
+	mem := New()
+	user := NewUser("u", "p")
+	mem.AddUser(user)
+	user.Create("m", nil)
+	mbox := user.mailboxes["m"]
+	hdr := "Date: Mon, 01 Jan 2024 00:00:00 +0000\r\nSubject: x\r\n\r\n"
+	for i, n := range []int{40, 140, 240} {
+		body := []byte(hdr)
+		for len(body) < n {
+			body = append(body, 'b')
+		}
+		opts := &imap.AppendOptions{Time: time.Date(2024, 1, 1, 12, 0, 0, 0, time.UTC)}
+		if i == 1 {
+			opts.Flags = []imap.Flag{imap.FlagSeen}
+		}
+		mbox.appendBytes(body, opts)
+	}
+	lg := &c08log{}
+	srv := imapserver.New(&imapserver.Options{
+		NewSession: func(conn *imapserver.Conn) (imapserver.Session, *imapserver.GreetingData, error) {
+			return mem.NewSession(), nil, nil
+		},
+		Caps:         imap.CapSet{imap.CapIMAP4rev1: {}},
+		InsecureAuth: true,
+		Logger:       lg,
+	})
+	conn := &c08conn{}
+	cl := &c08client{conn: conn}
+	srv.Serve(&c08ln{conns: []*c08conn{conn}})
+	st, _ := cl.run('O', "LOGIN u p")
+	nd.Assert(st == "OK", "login-failed")
+	st, _ = cl.run('O', "SELECT m")
+	nd.Assert(st == "OK", "select-failed")
+	nk := 1 + nd.Choice(3)
+	cmd := "SEARCH"
+	want := [3]bool{true, true, true}
+	for i := 0; i < nk; i++ {
+		k := c09wireKeys[nd.Choice(len(c09wireKeys))]
+		cmd += " " + k.text
+		for j := range want {
+			want[j] = want[j] && k.hit[j]
+		}
+	}
+	st, hits := cl.run('F', cmd)
+	nd.Assert(st == "OK", "search-command-failed")
+	var got [3]bool
+	for _, h := range hits {
+		if h >= 1 && h <= 3 {
+			got[h-1] = true
+		}
+	}
+	nd.Assert(got == want, "wire-search-result-differs-from-the-conjunction-of-its-keys")
+	nd.Assert(lg.panics == 0, "server-logged-a-panic")
+	conn.eof = true
+	nd.Reach("wire-searched")
 }
